@@ -247,8 +247,8 @@ def _receive_path(ctx, thorough):
                 if all(dmg[i] == fr[i] for i in lenpos):
                     # a console (or a bridge in between) that repeats the very same damaged frame on the connection the client
                     # re-establishes: it must be refused every time, not only the first time
-                    for _ in range(ctx.rng.choice([0, 1, 2])):
-                        sc += [("peerbytes", dmg.hex()), ("adv", 4)]
+                    for _ in range(ctx.rng.choice([0, 1, 2, 5, 9])):
+                        sc += [("peerbytes", dmg.hex()), ("adv", ctx.rng.choice([1, 4, 17]))]
                 if any(dmg[i] != fr[i] for i in lenpos):
                     # a damaged length field makes the receiver wait for bytes that never come (the stream is out of step):
                     # the console gives up on the connection, as it would after its own timeout
